@@ -33,3 +33,20 @@ Definition enforce_keepalive (c : cfg) : cfg :=
       else c
   | None => mkCfg (Some service_ka) (cfg_other c)
   end.
+
+(* ------------------------------------------------------------------ the read timeout as applied to the connection
+   llrp.Client (pkg/llrp/reader.go): readHeader arms the READ deadline (now + timeout) before it waits for the
+   next header; handleOutgoing arms a deadline before every message it writes.  [WriteOnly] is the code under
+   test (SetWriteDeadline); [Both] is a write loop that calls SetDeadline.  While the reader is silent the read
+   side stays parked: the only events are writes. *)
+Inductive write_arms := WriteOnly | Both.
+Record deadlines := mkDL { dl_read : N; dl_write : N }.
+Definition arm_read (now : N) (d : deadlines) : deadlines := mkDL (now + read_timeout_ms) (dl_write d).
+Definition on_write (w : write_arms) (d : deadlines) (now : N) : deadlines :=
+  match w with
+  | WriteOnly => mkDL (dl_read d) (now + read_timeout_ms)
+  | Both => mkDL (now + read_timeout_ms) (now + read_timeout_ms)
+  end.
+(* the read side armed at t0, then the client writes at the given times while nothing arrives *)
+Definition silent_reader (w : write_arms) (d : deadlines) (t0 : N) (writes : list N) : deadlines :=
+  List.fold_left (on_write w) writes (arm_read t0 d).
